@@ -28,15 +28,17 @@ Pipeline (nothing is keyed to today's text of a member function):
     the kernel wrappers of `Rt/Iter.lean` (`Rt.inc`, `Rt.dec`, `Rt.plus`, ...), extracted by
     kernels.py / kernels_group.py.
 
-  * model II (`Rt/Cursor.lean`, C04; DSL `Sbepp.Rt.Cursor.GroupDsl` in the same file): the
+  * model II (`Rt/Cursor.lean`, C04; DSL `Rt/GroupCursorDsl.lean`, namespace `Sbepp.Rt.Cursor.GroupDsl`): the
     cursor-range members (`cursor_range`, `cursor_subrange` x2, `cursor_begin`, `cursor_end`,
     `operator()(visit_children_tag, v, c)`) with the header accessors they call, class
     `cursor_range`, `input_iterator`, `entry_base(Byte*, Byte*, BlockLengthType)`,
     `entry_base(cursor&, Byte*, BlockLengthType)` and the two `entry_base` accessors.  Values
     are `Nat` / `Option Nat`, the monad is `Out`.
 
-Output: lean/Sbepp/Extracted/GroupMethods.lean + a report (dict).  Ties:
-`lean/Sbepp/Lemmas/GroupTie.lean`.
+Output: lean/Sbepp/Extracted/GroupMethods.lean (model I), lean/Sbepp/Extracted/GroupCursorMethods.lean
+(model II; a module of its own because the schema layer's `Sbepp.Group` must not enter the modules that
+talk about `Sbepp.Rt.Group`) + a report (dict).  Ties: `lean/Sbepp/Lemmas/GroupTie.lean`,
+`lean/Sbepp/Lemmas/GroupCursorTie.lean`.
 
 C++ typing facts the translator assumes (also written into the generated file):
   * `Byte*` is `.ptr` (model I: signed 64-bit offset, `nullptr` = 0) / `Option Nat` (model II);
@@ -1018,6 +1020,16 @@ class Types:
             return ('unknown', sp)
         if sp in cls.aliases and not cls.aliases[sp][0]:
             return self.resolve(cls.aliases[sp][1], cls, binding, depth + 1)
+        if sp == cls.name:                      # injected class name
+            b = freeze({k: v for k, v in binding.items() if k in cls.tparams})
+            if sp in TEMPLATE_KINDS:
+                return ('iter', TEMPLATE_KINDS[sp], b)
+            if sp == 'input_iterator':
+                return ('citer', b)
+            if sp == 'cursor_range':
+                return ('crange', b)
+            if sp == 'entry_base':
+                return ENTRY
         return ('unknown', sp)
 
 
@@ -1106,12 +1118,12 @@ class MethodOut:
 NS_I = {'flat_group_base': 'Flat', 'nested_group_base': 'Nested', 'forward_iterator': 'Fwd',
         'random_access_iterator': 'Ra'}
 KEYS_I = {
+    'random_access_iterator': ['ctor', 'deref'],
+    'forward_iterator': ['ctor', 'deref', 'inc', 'eq', 'ne'],
     'flat_group_base': ['get_header', 'size_bytes', 'sbe_size', 'size', 'resize', 'empty', 'begin', 'end', 'subscript',
                         'front', 'back', 'clear'],
     'nested_group_base': ['get_header', 'sbe_size', 'size', 'resize', 'empty', 'begin', 'end', 'front', 'clear',
                           'size_bytes'],
-    'forward_iterator': ['ctor', 'deref', 'inc', 'eq', 'ne'],
-    'random_access_iterator': ['ctor', 'deref'],
 }
 # members of the iterator classes as the DSL (`RaP`, `FwP`) declares them: (C++ name, C++ type, model field, projection)
 ITER_MEMBERS = {
@@ -1915,3 +1927,1471 @@ class GroupI(ExprI):
         out.binders, out.lines, out.needs, out.cparams, out.cret = b, self.body.lines, set(self.needs), self.cparams, r
         out.pure = False
         return out
+
+
+class IterBaseI(ExprI):
+    def __init__(self, model, cname, meth):
+        self.model = model
+        self.cname = cname
+        self.m = meth
+        self.ns = NS_I[cname]
+        self.kind = {v: k for k, v in ITER_CLASS.items()}[cname]
+        self.ci = model.classes[cname]
+        self.binding = dict(model.binding_for(cname))
+        for tp in meth.tparams:
+            self.binding.setdefault(tp, ('tparam', tp))
+        self.body = Body()
+        self.env = {}
+        self.vars = {}
+        self.needs = set()
+        self.lean_ty = ITER_LEAN[self.kind]
+        # the data members as declared (checked variant), compared with what the DSL provides
+        decl = [(n, self.resolve(t)) for t, n in model.variants['chk'][cname].members]
+        want = [(n, t) for n, t, _, _ in ITER_MEMBERS[self.kind]]
+        if sorted(decl) != sorted(want):
+            raise ExtractError('%s: data members %r, the model has %r' % (cname, decl, want))
+
+    def resolve(self, sp):
+        return self.model.types.resolve(sp, self.ci, self.binding)
+
+
+class IterCtorI(IterBaseI):
+    """`iterator(Byte* ptr, ..., Byte* end) : ptr{ptr}, ...`: parameter-passing conversions as `.decl` statements
+    in the order and with the types of the parameter list, then the member initialisers"""
+
+    def run(self):
+        m = self.m
+        out = MethodOut()
+        out.ns, out.name, out.line, out.text = self.ns, 'ctor', m.line, m.text
+        ptypes = []
+        for ty, pname in m.params:
+            t = self.resolve(ty)
+            if pname is None or (t[0] != 'int' and t != PTR):
+                raise ExtractError('constructor parameter `%s %s` has no model type' % (ty, pname))
+            ptypes.append((pname, t))
+        pnames = [p for p, _ in ptypes]
+        for s in Parser(m.body).statements():
+            if not (s[0] == 'expr' and s[1][0] == 'voidcast'):
+                raise ExtractError('a statement in the constructor body is not translated')
+        members = {n: (f, pr) for n, _, f, pr in ITER_MEMBERS[self.kind]}
+        inits = []
+        for mem, args, _ in m.inits:
+            if mem not in members:
+                raise ExtractError('initialiser of unknown member %s' % mem)
+            if len(args) != 1 or len(args[0]) != 1 or args[0][0][0] != 'id' or args[0][0][1] not in pnames:
+                raise ExtractError('member %s is not initialised from a constructor parameter' % mem)
+            inits.append((mem, args[0][0][1]))
+        if sorted(x for x, _ in inits) != sorted(members):
+            raise ExtractError('constructor initialises %r, the members are %r' % ([x for x, _ in inits], sorted(members)))
+        lp = [lean_ident(p) for p in pnames]
+        body = Body()
+        decls = ', '.join('(.decl %s "it_%s" %s)' % (cty(t), p, l) for (p, t), l in zip(ptypes, lp))
+        body.emit('let env ← block NT BT chk g xp xv [%s]' % decls)
+        for mem, p in inits:
+            body.emit('let m_%s ← getVar env "it_%s"' % (mem, p))
+        body.emit('pure { %s }' % ', '.join('%s := m_%s.%s' % (members[mem][0], mem, members[mem][1]) for mem, _ in inits))
+        out.binders = '(NT BT : CTy) (chk : Bool) (g : Rt.Group) (xp : List (String × CTy)) (xv : List Nat) (%s : CExpr)' % ' '.join(lp)
+        out.ret = 'Outcome %s' % self.lean_ty
+        out.lines, out.repr, out.cret, out.pure = body.lines, 'iter', ('iter', self.kind), False
+        out.cparams = [(l, t) for (p, t), l in zip(ptypes, lp)]
+        return out
+
+
+class IterCmpI(IterBaseI):
+    """`friend bool operator==(const iterator& lhs, const iterator& rhs)`"""
+
+    def run(self):
+        m = self.m
+        out = MethodOut()
+        out.ns, out.name, out.line, out.text = self.ns, lean_name(method_key(m)), m.line, m.text
+        if len(m.params) != 2 or any(p[1] is None for p in m.params):
+            raise ExtractError('comparison with %d named parameters' % len(m.params))
+        for ty, _ in m.params:
+            if re.sub(r'<.*>$', '', ty.rstrip('&')) != self.cname:
+                raise ExtractError('comparison parameter of type %s' % ty)
+        if self.resolve(m.ret) != INT('bool'):
+            raise ExtractError('comparison returning %s' % m.ret)
+        self.objs = {m.params[0][1]: 'lhs', m.params[1][1]: 'rhs'}
+        stmts = Parser(m.body).statements()
+        if len(stmts) != 1 or stmts[0][0] != 'return' or stmts[0][1] is None:
+            raise ExtractError('comparison body is not a single return')
+        c = self.to_cexpr(self.ex(stmts[0][1]))
+        l0, l1 = lean_ident(m.params[0][1]), lean_ident(m.params[1][1])
+        out.binders = '(NT : CTy) (%s %s : %s)' % (l0, l1, self.lean_ty)
+        out.ret = 'Outcome Bool'
+        out.lines = ['  fcompare NT %s %s %s' % (l0, l1, c.term)] if self.kind == 'fwd' else None
+        if out.lines is None:
+            raise ExtractError('comparisons of random_access_iterator are kernels, not translated here')
+        out.repr, out.cret, out.pure, out.as_term = 'bool', INT('bool'), False, True
+        return out
+
+    def ex(self, e):
+        k = e[0]
+        if k == 'num':
+            return self.lit(e)
+        if k == 'bin':
+            return self.binop(e[1], self.ex(e[2]), self.ex(e[3]))
+        if k == 'un' and e[1] in UNOPS:
+            return self.unop(e[1], self.ex(e[2]))
+        if k == 'cast':
+            return self.cast(e[1], self.ex(e[2]))
+        if k == 'member' and e[1][0] == 'name' and e[1][1] in self.objs and not e[3]:
+            if e[2] != 'index':
+                raise ExtractError('a comparison reads member %s; the model compares positions only' % e[2])
+            return V(INT('NT'), 'cexpr', '(.var "%s_index")' % self.objs[e[1][1]])
+        raise ExtractError('expression form %s in a comparison' % k)
+
+    def iter_binop(self, op, a, b):
+        raise ExtractError('iterator arithmetic in a comparison')
+
+
+class IterMethI(IterBaseI):
+    """`operator*`, `operator++` of an iterator class"""
+
+    def __init__(self, model, cname, meth):
+        super().__init__(model, cname, meth)
+        for n, t, _, _ in ITER_MEMBERS[self.kind]:
+            self.env[n] = V(t, 'cexpr', '(.var "%s")' % n)
+        self.fields = {n: (f, pr) for n, _, f, pr in ITER_MEMBERS[self.kind]}
+        self.pending = []          # [(member, cexpr term)]
+        self.pending_uses = ()
+        self.assert_idx = 0
+        self.mon = False
+        self.in_check = False
+        self.returned = False
+        self.has_end = any(n == 'end' for _, n in model.variants['unc'][cname].members)
+        self.variant_unc = meth in model.variants['unc'][cname].methods
+
+    def vblock(self):
+        return {'fwd': 'f', 'ra': 'r'}[self.kind]
+
+    def hoisting(self):
+        if self.pending:
+            self.flush(final=False)
+
+    def flush(self, final):
+        if self.kind != 'fwd':
+            raise ExtractError('member assignments of random_access_iterator are kernels, not translated here')
+        xp, xv = self.xpxv(self.pending_uses)
+        self.body.emit('let env ← fblock NT BT chk it %s %s [%s]' % (
+            xp, xv, ', '.join('(.assign "%s" %s)' % (mem, t) for mem, t in self.pending)))
+        self.mon = True
+        mems = []
+        for mem, _ in self.pending:
+            if mem not in mems:
+                mems.append(mem)
+        for mem in mems:
+            self.body.emit('let m_%s ← getVar env "%s"' % (mem, mem))
+        upd = '{ it with %s }' % ', '.join('%s := m_%s.%s' % (self.fields[mem][0], mem, self.fields[mem][1]) for mem in mems)
+        self.pending, self.pending_uses = [], ()
+        if final:
+            return upd
+        self.body.emit('let it := %s' % upd)
+        return 'it'
+
+    def ex(self, e):
+        k = e[0]
+        if k == 'num':
+            return self.lit(e)
+        if k == 'nullptr':
+            return V(PTR, 'cexpr', '(.lit .ptr 0)')
+        if k == 'bool':
+            return V(INT('bool'), 'cexpr', '(.lit .bool %d)' % (1 if e[1] else 0))
+        if k == 'name' and e[2] is None and e[1] in self.env:
+            if e[1] == 'end' and not self.has_end and self.variant_unc and not self.in_check:
+                raise ExtractError('the `end` member is read outside SBEPP_SIZE_CHECK in a build without size checks')
+            return self.env[e[1]]
+        if k == 'bin':
+            return self.binop(e[1], self.ex(e[2]), self.ex(e[3]))
+        if k == 'un':
+            if is_this_deref(e):
+                return V(('iter', self.kind), 'lean', 'it')
+            a = self.ex(e[2])
+            if e[1] == '*' and a.kind == 'lean' and a.ty[0] == 'iter':
+                return self.own_call('deref', [])
+            return self.unop(e[1], a)
+        if k == 'cast':
+            return self.cast(e[1], self.ex(e[2]))
+        if k == 'call':
+            fn, args = e[1], e[2]
+            if fn[0] == 'name':
+                n = strip_ns(fn[1])
+                if n == 'size_bytes' and len(args) == 1:
+                    v = self.ex(args[0])
+                    if v.ty != ENTRY:
+                        raise ExtractError('sbepp::size_bytes of a %s value' % (v.ty[0],))
+                    self.hoisting()
+                    self.needs.add('esize')
+                    name = self.body.fresh()
+                    self.body.emit('let %s := esize %s' % (name, paren(v.term)))
+                    self.vars[name] = ('.u64', name)
+                    return V(INT('size_t'), 'cexpr', '(.var "%s")' % name, uses=(name,))
+                if n.startswith('operator') and n[len('operator'):] in OPERATOR_NAMES:
+                    return self.own_call(OPERATOR_NAMES[n[len('operator'):]], args)
+            if fn[0] == 'member' and (fn[1] == ('this',) or is_this_deref(fn[1])):
+                return self.own_call(fn[2], args)
+            raise ExtractError('call form in an iterator member function')
+        raise ExtractError('expression form %s is not translated' % k)
+
+    def own_call(self, key, args):
+        if args:
+            raise ExtractError('call of %s with arguments' % key)
+        callee = self.model.translate(self.cname, key)
+        self.hoisting()
+        if key == 'deref' and callee.pure:
+            return V(ENTRY, 'lean', 'deref chk it')
+        raise ExtractError('call of %s::%s from a member function' % (self.cname, key))
+
+    def iter_binop(self, op, a, b):
+        raise ExtractError('iterator arithmetic inside an iterator member function')
+
+    def lean_arg(self, v, proj):
+        c = self.to_cexpr(v)
+        m = re.fullmatch(r'\(\.var "(\w+)"\)', c.term)
+        if m and m.group(1) in self.fields and not self.pending:
+            return 'it.%s' % self.fields[m.group(1)][0]
+        if c.term == '(.lit .ptr 0)':
+            return '0'
+        self.hoisting()
+        name = self.body.fresh()
+        xp, xv = self.xpxv(c.uses)
+        self.body.emit('let %s ← fvalue NT BT it %s %s %s' % (name, xp, xv, c.term))
+        self.mon = True
+        return '%s.%s' % (name, proj)
+
+    def check(self, idx, build_final):
+        saved = self.body.lines
+        self.body.lines = []
+        self.body.ind += 1
+        self.in_check = True
+        try:
+            final = build_final()
+            inner = self.body.lines
+        finally:
+            self.body.lines = saved
+            self.body.ind -= 1
+            self.in_check = False
+        self.mon = True
+        if not inner:
+            self.body.emit('assertM chk %d (%s)' % (idx, final))
+        else:
+            self.body.emit('assertM chk %d (do' % idx)
+            self.body.lines += inner
+            self.body.emit(final + ')', self.body.ind + 1)
+
+    def assign_member(self, target, op, rhs):
+        if not (target[0] == 'name' and target[2] is None and target[1] in self.fields):
+            raise ExtractError('assignment to something else than a data member')
+        mem = target[1]
+        tv = self.env[mem]
+        if op != '=':
+            rhs = self.binop(op[:-1], tv, rhs)
+        c = self.to_cexpr(rhs)
+        self.pending.append((mem, c.term))
+        self.pending_uses = merge_uses(V(None, 'cexpr', '', uses=self.pending_uses), c)
+
+    def stmt(self, s):
+        if self.returned:
+            raise ExtractError('statement after return')
+        k = s[0]
+        if k == 'sizecheck' or k == 'assert':
+            self.hoisting()
+            idx = self.assert_idx
+            self.assert_idx += 1
+
+            def fin():
+                if k == 'assert':
+                    c = self.to_cexpr(self.ex(s[1]))
+                    term = c.term
+                    uses = c.uses
+                else:
+                    vs = [self.to_cexpr(self.ex(a)) for a in s[1]]
+                    term = '(Macro.SBEPP_SIZE_CHECK %s)' % ' '.join(v.term for v in vs)
+                    uses = merge_uses(*vs)
+                xp, xv = self.xpxv(uses)
+                return 'ftruth NT BT it %s %s %s' % (xp, xv, term)
+            self.check(idx, fin)
+        elif k == 'expr':
+            e = s[1]
+            if e[0] == 'voidcast':
+                return
+            if e[0] == 'assign':
+                self.assign_member(e[2], e[1], self.ex(e[3]))
+            elif e[0] in ('post', 'un') and e[1] in ('++', '--'):
+                self.assign_member(e[2], e[1][0] + '=', V(INT('int'), 'cexpr', '(.lit .i32 1)'))
+            else:
+                raise ExtractError('expression statement is not translated')
+        elif k == 'return':
+            self.returned = True
+            e = s[1]
+            r = self.cret
+            if e is not None and is_this_deref(e):
+                if r[0] != 'iter':
+                    raise ExtractError('`return *this` in a function returning %s' % self.m.ret)
+                if self.pending:
+                    self.body.emit('return %s' % self.flush(final=True))
+                else:
+                    self.body.emit('return it')
+            elif e is not None and e[0] == 'brace' and e[1] is None:
+                if r != ENTRY:
+                    raise ExtractError('braced return in a function returning %s' % self.m.ret)
+                args = e[2]
+                if len(args) != 3:
+                    raise ExtractError('entry constructed from %d arguments' % len(args))
+                vs = [self.ex(a) for a in args]
+                if vs[0].ty != PTR or vs[1].ty != PTR or vs[2].ty[0] != 'int':
+                    raise ExtractError('entry constructed from (%s, %s, %s)' % tuple(v.ty[0] for v in vs))
+                self.model.entry_ctor_used = True
+                self.body.emit('%sentryAt %s %s %s' % ('return ' if self.mon else '', self.lean_arg(vs[0], 'toInt'),
+                                                    self.lean_arg(vs[1], 'toInt'), self.lean_arg(vs[2], 'bits')))
+            else:
+                raise ExtractError('return form is not translated')
+        elif k == 'block':
+            for x in s[1]:
+                self.stmt(x)
+        else:
+            raise ExtractError('statement form `%s` is not translated here' % k)
+
+    def run(self):
+        m = self.m
+        out = MethodOut()
+        key = method_key(m)
+        out.ns, out.name, out.line, out.text = self.ns, lean_name(key), m.line, m.text
+        if m.params:
+            raise ExtractError('%s with parameters' % key)
+        self.cret = self.resolve(m.ret)
+        if self.cret[0] == 'iter':
+            self.cret = ('iter', self.kind)
+        for s in Parser(m.body).statements():
+            self.stmt(s)
+        if not self.returned:
+            raise ExtractError('control reaches the end of a non-void function')
+        if key == 'deref':
+            out.binders = '(chk : Bool) (it : %s)' % self.lean_ty
+            if self.mon:
+                out.binders = '(NT BT : CTy) ' + out.binders
+        else:
+            out.binders = '(NT BT : CTy) (chk : Bool)%s (it : %s)' % (
+                ' (esize : Int → Nat)' if 'esize' in self.needs else '', self.lean_ty)
+        if self.cret == ENTRY:
+            out.repr, out.ret = 'entry', ('Outcome Int' if self.mon else 'Int')
+        elif self.cret[0] == 'iter':
+            out.repr, out.ret = 'iter', ('Outcome %s' % self.lean_ty if self.mon else self.lean_ty)
+        else:
+            raise ExtractError('return type %s' % m.ret)
+        out.lines, out.pure, out.needs, out.cret = self.body.lines, not self.mon, set(self.needs), self.cret
+        return out
+
+
+def translate_macro(src):
+    """`#define SBEPP_SIZE_CHECK(begin, end, offset, size) SBEPP_ASSERT(expr)` -> Lean function on `CExpr`"""
+    params, body = cxx.parse_define(src, 'SBEPP_SIZE_CHECK')
+    if len(params) != 4:
+        raise ExtractError('SBEPP_SIZE_CHECK with %d parameters' % len(params))
+    stmts = Parser(tokenize(body + ';')).statements()
+    if len(stmts) != 1 or stmts[0][0] != 'assert':
+        raise ExtractError('SBEPP_SIZE_CHECK does not expand to one SBEPP_ASSERT')
+    lp = [lean_ident(p) for p in params]
+
+    class M(ExprI):
+        def resolve(self, sp):
+            return BUILTIN_TYPES.get(sp, ('unknown', sp))
+
+        def iter_binop(self, op, a, b):
+            raise ExtractError('macro')
+
+        def ex(self, e):
+            k = e[0]
+            if k == 'num':
+                return self.lit(e)
+            if k == 'name' and e[2] is None and e[1] in params:
+                return V(('macroarg',), 'cexpr', lp[params.index(e[1])])
+            if k == 'bin':
+                return self.binop(e[1], self.ex(e[2]), self.ex(e[3]))
+            if k == 'un' and e[1] in UNOPS:
+                return self.unop(e[1], self.ex(e[2]))
+            if k == 'cast':
+                return self.cast(e[1], self.ex(e[2]))
+            raise ExtractError('expression form %s in SBEPP_SIZE_CHECK' % k)
+    term = M().ex(stmts[0][1]).term
+    return ('/-- `#define SBEPP_SIZE_CHECK(%s)`\n```\n%s\n``` -/\ndef SBEPP_SIZE_CHECK (%s : CExpr) : CExpr :=\n  %s\n' % (
+        ', '.join(params), ' '.join(body.split()), ' '.join(lp), term), params, ' '.join(body.split()))
+
+
+# ------------------------------------------------------------------ class loading
+
+
+def class_tparams(src, name):
+    m = None
+    for mm in re.finditer(r'template\s*<([^<>]*)>\s*(?:class|struct)\s+' + re.escape(name) + r'\b(?!\s*;)', src):
+        m = mm
+        break
+    if m is None:
+        raise ExtractError('template header of class %s not found' % name)
+    out = []
+    for part in m.group(1).split(','):
+        ws = part.split('=')[0].split()
+        if len(ws) >= 2 and ws[0] in ('typename', 'class'):
+            out.append(ws[1])
+        else:
+            raise ExtractError('template parameter `%s` of %s' % (part.strip(), name))
+    return out
+
+
+def load_classes(src, report):
+    """-> {'chk': {name: ClassInfo}, 'unc': {...}}"""
+    variants = {'chk': {}, 'unc': {}}
+    for name in CLASSES:
+        try:
+            s, e = cxx.find_class_body(src, name)
+            base_line = src.count('\n', 0, s) + 1
+            tps = class_tparams(src, name)
+            texts = pp_variants(src[s:e])
+            for vname, text in zip(('chk', 'unc'), texts):
+                ci = scan_class(name, tokenize(text, base_line))
+                ci.tparams = tps
+                for m in ci.methods:
+                    m.key = method_key(m)
+                variants[vname][name] = ci
+        except ERRS as ex:
+            report['failed'][name] = 'class: %s' % ex
+            variants['chk'].pop(name, None)
+            variants['unc'].pop(name, None)
+    return variants
+
+
+def render_def(out, cname):
+    src = (out.text or '').replace('-/', '- /').replace('/-', '/ -')
+    head = '/-- `%s::%s`, sbepp.hpp:%d\n```\n%s\n``` -/\n' % (cname, out.key, out.line, src)
+    if out.pure or getattr(out, 'as_term', False):
+        return '%sdef %s %s : %s :=\n%s\n' % (head, out.name, out.binders, out.ret, '\n'.join(out.lines))
+    return '%sdef %s %s : %s := do\n%s\n' % (head, out.name, out.binders, out.ret, '\n'.join(out.lines))
+
+
+# ------------------------------------------------------------------ model II (Rt/Cursor.lean)
+
+NS_II = {'entry_base': 'Entry', 'input_iterator': 'InputIt', 'cursor_range': 'CursorRange',
+         'flat_group_base': 'CFlat', 'nested_group_base': 'CNested'}
+KEYS_II = {
+    'entry_base': ['ctor_ptr', 'ctor_cursor', 'get_block_length', 'get_level'],
+    'input_iterator': ['ctor', 'deref', 'inc', 'eq', 'ne'],
+    'cursor_range': ['ctor', 'size', 'begin', 'end'],
+    'flat_group_base': ['get_header', 'sbe_size', 'size', 'cursor_range', 'cursor_subrange1', 'cursor_subrange2',
+                        'cursor_begin', 'cursor_end', 'visit_children'],
+    'nested_group_base': ['get_header', 'sbe_size', 'size', 'cursor_range', 'cursor_subrange1', 'cursor_subrange2',
+                          'cursor_begin', 'cursor_end', 'visit_children'],
+}
+ENDP = ('endp',)
+BINDER_ORDER = [('emptyCtor', '(emptyCtor : Bool)'), ('bo', '(bo : ByteOrder)'), ('buf', '(buf : List Nat)'),
+                ('endp', '(endp : Option Nat)'), ('dim', '(dim : Dim)'), ('gaddr', '(gaddr : Nat)'), ('w', '(w : Nat)')]
+# data members of the classes as the model has them: C++ name -> (C++ type, Lean projection of `this` | ambient value)
+MEMBERS_II = {
+    'input_iterator': {'index': (INT('NT'), 'this.index'), 'cursor': (CURSORPTR, None), 'block_length': (INT('BT'), 'this.bl'),
+                       'end': (PTR, None)},
+    'cursor_range': {'cursor': (CURSORPTR, None), 'block_length': (INT('BT'), 'this.bl'), 'start_pos': (INT('NT'), 'this.start'),
+                     'end_ptr': (PTR, None), 'length': (INT('NT'), 'this.len')},
+    'entry_base': {'block_length': (INT('BT'), 'this.wbl')},
+}
+THIS_TY = {'input_iterator': 'InIter', 'cursor_range': 'Range', 'entry_base': 'LView'}
+FIELD_OF = {'input_iterator': {'index': 'index', 'block_length': 'bl'},
+            'cursor_range': {'block_length': 'bl', 'start_pos': 'start', 'length': 'len'}}
+
+
+class W:
+    def __init__(self, ty, term):
+        self.ty = ty
+        self.term = term
+
+
+class ModelII:
+    def __init__(self, types, variants, report):
+        self.types = types
+        self.variants = variants
+        self.classes = variants['chk']
+        self.report = report
+        self.done = {}
+        self.order = []
+        self.active = []
+        self.bind = {}
+
+    def binding_for(self, cname):
+        if cname in self.bind:
+            return self.bind[cname]
+        ci = self.classes[cname]
+        if cname in ('flat_group_base', 'nested_group_base'):
+            if len(ci.tparams) != 3:
+                raise ExtractError('%s: expected 3 template parameters (Byte, Entry, Dimension)' % cname)
+            b = {ci.tparams[0]: BYTE, ci.tparams[1]: ENTRY, ci.tparams[2]: DIM}
+        elif cname == 'entry_base':
+            if len(ci.tparams) != 2:
+                raise ExtractError('entry_base: expected 2 template parameters (Byte, BlockLengthType)')
+            b = {ci.tparams[0]: BYTE, ci.tparams[1]: INT('BT')}
+        else:
+            found = []
+            for g in ('flat_group_base', 'nested_group_base'):
+                if g not in self.classes:
+                    continue
+                gi = self.classes[g]
+                gb = self.binding_for(g)
+                gb2 = dict(gb)
+                gb2['Byte2'] = ('tparam', 'Byte2')
+                t = self.types.resolve('cursor_range_t<Byte2>' if cname == 'cursor_range' else 'cursor_iterator<Byte2>', gi, gb2)
+                if t[0] != ('crange' if cname == 'cursor_range' else 'citer'):
+                    raise ExtractError('%s: the cursor range alias does not name %s' % (g, cname))
+                found.append(dict(t[1]))
+            if not found:
+                raise ExtractError('no group class instantiates %s' % cname)
+            if any(f != found[0] for f in found):
+                raise ExtractError('the two group classes instantiate %s differently' % cname)
+            b = found[0]
+        self.bind[cname] = b
+        return b
+
+    def find(self, cname, key, variant):
+        ci = self.variants[variant].get(cname)
+        if ci is None:
+            raise ExtractError('class %s not available' % cname)
+        ms = [m for m in ci.methods if not m.defaulted]
+        b = self.binding_for(cname)
+
+        def ptypes(m):
+            bb = dict(b)
+            for tp in m.tparams:
+                bb.setdefault(tp, ('tparam', tp))
+            return [self.types.resolve(t, ci, bb) for t, _ in m.params]
+        if key in ('ctor_ptr', 'ctor_cursor'):
+            want = PTR if key == 'ctor_ptr' else CURSOR
+            ms = [m for m in ms if m.is_ctor and len(m.params) == 3 and ptypes(m)[0] == want and ptypes(m)[1] == PTR]
+        elif key == 'ctor':
+            ms = [m for m in ms if m.is_ctor and m.params]
+        elif key in ('cursor_subrange1', 'cursor_subrange2'):
+            ms = [m for m in ms if method_key(m) == 'cursor_subrange' and len(m.params) == int(key[-1]) + 1]
+        else:
+            ms = [m for m in ms if method_key(m) == key]
+        if not ms:
+            raise ExtractError('%s::%s not found' % (cname, key))
+        if len(ms) > 1:
+            raise ExtractError('%s::%s is overloaded (%d definitions)' % (cname, key, len(ms)))
+        return ms[0]
+
+    def translate(self, cname, key):
+        k = (cname, key)
+        if k in self.done:
+            r = self.done[k]
+            if isinstance(r, ExtractError):
+                raise ExtractError('%s::%s was not translated (%s)' % (cname, key, r))
+            return r
+        if k in self.active:
+            raise ExtractError('recursive call chain through %s::%s' % k)
+        self.active.append(k)
+        try:
+            outs = []
+            for variant in ('chk', 'unc'):
+                meth = self.find(cname, key, variant)
+                outs.append(MethII(self, cname, key, meth, variant).run())
+            a, b = outs
+            if a.lines != b.lines or a.binders != b.binders:
+                if a.ret != b.ret or a.pure != b.pure:
+                    raise ExtractError('%s::%s: the checked and the unchecked variant have different result types' % (cname, key))
+                if a.binders != b.binders:
+                    # the variants need different parameters: take the union (in the canonical order)
+                    a.needs |= b.needs
+                    a.binders = binders_ii(a)
+                a.needs.add('endp')
+                a.binders = binders_ii(a)
+                merged = ['  if endp.isSome then%s' % ('' if a.pure else ' do')]
+                merged += ['  ' + l for l in a.lines]
+                merged += ['  else%s' % ('' if a.pure else ' do')]
+                merged += ['  ' + l for l in b.lines]
+                a.lines = merged
+            a.cls, a.key = cname, key
+            self.done[k] = a
+            self.order.append(k)
+            return a
+        except ERRS as ex:
+            err = ex if isinstance(ex, ExtractError) else ExtractError('%s: %s' % (type(ex).__name__, ex))
+            self.done[k] = err
+            self.order.append(k)
+            raise err
+        finally:
+            self.active.pop()
+
+
+def binders_ii(out):
+    parts = [txt for flag, txt in BINDER_ORDER if flag in out.needs]
+    if 'visit' in out.needs:
+        parts = ['{σ : Type}'] + parts + ['(on_entry : LView → Ptr → σ → Out (Bool × Ptr × σ))', '(fuel : Nat)',
+                                          '(c : Ptr)', '(v : σ)']
+    elif 'c' in out.needs:
+        parts.append('(c : Ptr)')
+    parts += out.tail_binders
+    return ' '.join(parts)
+
+
+def callargs_ii(callee, dim_w=True):
+    """the ambient arguments of a call, in binder order; inside a group class `w` is `indexBits dim`"""
+    out = []
+    for flag, _ in BINDER_ORDER:
+        if flag in callee.needs:
+            out.append('(indexBits dim)' if flag == 'w' and dim_w else flag)
+    return out
+
+
+class MethII:
+    def __init__(self, model, cname, key, meth, variant):
+        self.model = model
+        self.cname = cname
+        self.key = key
+        self.m = meth
+        self.variant = variant
+        self.ci = model.variants[variant][cname]
+        self.binding = dict(model.binding_for(cname))
+        for tp in meth.tparams:
+            self.binding.setdefault(tp, ('tparam', tp))
+        self.is_group = cname in ('flat_group_base', 'nested_group_base')
+        self.body = Body()
+        self.env = {}
+        self.needs = set()
+        self.mon = False
+        self.roles = {}            # generic (template-typed) parameter -> 'cursor' | 'visitor'
+        self.stateful = False      # threads (c, v) and returns them
+        self.in_loop = False
+        self.returned = False
+        self.cret = None
+        self.tail_binders = []
+        self.cparams = []
+        self.w = '(indexBits dim)' if self.is_group else 'w'
+
+    def resolve(self, sp):
+        return self.model.types.resolve(sp, self.ci, self.binding)
+
+    def need(self, *flags):
+        for f in flags:
+            self.needs.add(f)
+            if f == 'w' and self.is_group:
+                self.needs.discard('w')
+                self.needs.add('dim')
+
+    def has_method(self, key):
+        return any(method_key(m) == key for m in self.ci.methods)
+
+    # ---- calls
+    def hoist(self, callstr, mon, hint=None, pat=None):
+        name = self.body.fresh(hint)
+        if mon:
+            self.mon = True
+        self.body.emit('let %s %s %s' % (pat or name, '←' if mon else ':=', callstr))
+        self.last_hoist = (name, callstr, len(self.body.lines) - 1, not mon)
+        return name
+
+    def result_of(self, callee, callstr, hint=None):
+        self.needs |= {f for f in callee.needs if f not in ('w', 'visit', 'c')}
+        if 'w' in callee.needs:
+            self.need('w')
+        if callee.pure:
+            return W(callee.cret, callstr)
+        return W(callee.cret, self.hoist(callstr, True, hint))
+
+    def drop_ambient(self, v, pty, what):
+        """an argument for a parameter the model does not carry (the cursor, the end pointer)"""
+        if pty in (CURSOR, CURSORPTR):
+            if v.ty not in (CURSOR, CURSORPTR) or v.term != 'c':
+                if v.ty[0] == 'generic':
+                    self.role(v.term, 'cursor')
+                    return
+                raise ExtractError('%s: the cursor handed on is not the ambient cursor (not representable)' % what)
+            return
+        if pty == PTR:
+            ok = v.term == 'endp' or (v.term == 'none' and self.variant == 'unc')
+            if not ok:
+                raise ExtractError('%s: the end pointer handed on is not the view\'s end pointer (not representable)' % what)
+            if v.term == 'endp':
+                pass
+            return
+        raise ExtractError('%s: parameter type %r' % (what, pty))
+
+    def call_args(self, callee, args, what):
+        if len(args) != len(callee.all_params):
+            raise ExtractError('%s called with %d arguments, takes %d' % (what, len(args), len(callee.all_params)))
+        out = []
+        for a, (pname, pty, carried) in zip(args, callee.all_params):
+            v = self.ex(a)
+            if not carried:
+                self.drop_ambient(v, pty, what)
+                continue
+            if pty[0] in ('int', 'wrap'):
+                if v.ty[0] not in ('int', 'wrap') or v.ty == INT('bool'):
+                    raise ExtractError('%s: argument for %s is a %s value' % (what, pname, v.ty[0]))
+            elif pty == PTR:
+                if v.ty != PTR:
+                    raise ExtractError('%s: argument for %s is a %s value' % (what, pname, v.ty[0]))
+            elif pty == ENDP:
+                if v.ty not in (ENDP, PTR):
+                    raise ExtractError('%s: argument for %s is a %s value' % (what, pname, v.ty[0]))
+            out.append(paren(v.term))
+        return out
+
+    def call_own(self, cname, key, args, hint=None, this=None):
+        callee = self.model.translate(cname, key)
+        argv = self.call_args(callee, args, '%s::%s' % (cname, key))
+        amb = callargs_ii(callee, self.is_group)
+        if 'c' in callee.needs:
+            self.need('c')
+            amb.append('c')
+        prefix = '' if cname == self.cname else NS_II[cname] + '.'
+        callstr = ' '.join([prefix + callee.name] + amb + ([this] if this else []) + argv)
+        return self.result_of(callee, callstr, hint)
+
+    def role(self, pname, r):
+        if self.roles.setdefault(pname, r) != r:
+            raise ExtractError('parameter %s is used both as a %s and as a %s' % (pname, self.roles[pname], r))
+
+    # ---- expressions
+    def ex(self, e, hint=None):
+        k = e[0]
+        if k == 'num':
+            return W(INT('int'), str(e[1]))
+        if k == 'bool':
+            return W(INT('bool'), 'true' if e[1] else 'false')
+        if k == 'nullptr':
+            return W(PTR, 'none')
+        if k == 'name':
+            if e[2] is None and e[1] in self.env:
+                return self.env[e[1]]
+            raise ExtractError('unknown name %s' % e[1])
+        if k == 'cast':
+            return self.cast(e[1], e[2])
+        if k == 'bin':
+            return self.binop(e[1], self.ex(e[2]), self.ex(e[3]))
+        if k == 'un':
+            if is_this_deref(e):
+                return W(('thisobj',), 'this')
+            a = self.ex(e[2])
+            if e[1] == '!' and a.ty == INT('bool'):
+                return W(INT('bool'), '!%s' % paren(a.term))
+            if e[1] == '*' and a.ty == CURSORPTR:
+                self.need('c')
+                return W(CURSOR, 'c')
+            if e[1] == '&' and a.ty == CURSOR:
+                return W(CURSORPTR, a.term)
+            if e[1] == '&' and a.ty[0] == 'generic':
+                self.role(a.term, 'cursor')
+                return W(CURSORPTR, 'c')
+            raise ExtractError('unary %s on a %s value' % (e[1], a.ty[0]))
+        if k == 'call':
+            return self.call(e, hint)
+        if k == 'brace':
+            if e[1] is None:
+                raise ExtractError('untyped braced initialiser outside return')
+            t = self.resolve(e[1])
+            if t[0] == 'tag' and not e[2]:
+                return W(t, e[1])
+            return self.construct(t, e[2], hint)
+        if k == 'member' and not e[3] and e[1][0] == 'name' and e[1][1] in getattr(self, 'cmp_objs', {}):
+            f = FIELD_OF.get(self.cname, {}).get(e[2])
+            if f is None:
+                raise ExtractError('member %s has no counterpart in the model' % e[2])
+            return W(MEMBERS_II[self.cname][e[2]][0], '%s.%s' % (self.cmp_objs[e[1][1]], f))
+        raise ExtractError('expression form %s is not translated' % k)
+
+    def cast(self, tyname, inner):
+        t = self.resolve(tyname)
+        if t == INT('size_t'):
+            return W(t, self.nat(self.ex(inner)).term)
+        if t in (INT('NT'), INT('BT')):
+            if t == INT('BT'):
+                raise ExtractError('conversion to the block length type is not modelled')
+            self.need('w')
+            if inner[0] == 'bin' and inner[1] in ('+', '-'):
+                a, b = self.nat(self.ex(inner[2])), self.nat(self.ex(inner[3]))
+                return W(t, '%s %s %s %s' % ('addIndex' if inner[1] == '+' else 'subIndex', self.w, paren(a.term), paren(b.term)))
+            return W(t, 'castIndex %s %s' % (self.w, paren(self.nat(self.ex(inner)).term)))
+        raise ExtractError('cast to %s' % tyname)
+
+    def nat(self, v):
+        if v.ty[0] in ('int', 'wrap') and v.ty != INT('bool'):
+            return v
+        raise ExtractError('a %s value is used as an integer' % (v.ty[0],))
+
+    def binop(self, op, a, b):
+        if op in ('&&', '||'):
+            if a.ty != INT('bool') or b.ty != INT('bool'):
+                raise ExtractError('%s on %s and %s' % (op, a.ty[0], b.ty[0]))
+            return W(INT('bool'), '%s %s %s' % (paren(a.term), op, paren(b.term)))
+        if a.ty == PTR and op == '+':
+            return W(PTR, 'padd %s %s' % (paren(a.term), paren(self.nat(b).term)))
+        if op in ('==', '!='):
+            if a.ty == PTR and b.ty == PTR:
+                t = 'peq %s %s' % (paren(a.term), paren(b.term))
+                return W(INT('bool'), t if op == '==' else '!(%s)' % t)
+            a, b = self.nat(a), self.nat(b)
+            return W(INT('bool'), '%s %s %s' % (paren(a.term), op, paren(b.term)))
+        a, b = self.nat(a), self.nat(b)
+        if op in ('<', '<=', '>', '>='):
+            return W(INT('bool'), 'decide (%s %s %s)' % (paren(a.term), {'<': '<', '<=': '≤', '>': '>', '>=': '≥'}[op], paren(b.term)))
+        if op in ('+', '-', '*'):
+            return W(INT('?'), '%s %s %s' % (paren(a.term), op, paren(b.term)))
+        raise ExtractError('operator %s is not translated' % op)
+
+    def call(self, e, hint):
+        fn, args = e[1], e[2]
+        if is_this_deref(fn) or (fn[0] == 'name' and fn[1] == 'operator()'):
+            if not args or args[0][0] != 'brace' or not (args[0][1] or '').endswith('_tag') or args[0][2]:
+                raise ExtractError('call of *this without a tag argument')
+            tag = args[0][1]
+            if self.is_group:
+                if tag == 'addressof_tag' and len(args) == 1:
+                    self.need('gaddr')
+                    return W(PTR, 'some gaddr')
+                if tag == 'end_ptr_tag' and len(args) == 1:
+                    self.need('endp')
+                    return W(ENDP, 'endp')
+            elif self.cname == 'entry_base':
+                if tag == 'addressof_tag' and len(args) == 1:
+                    return W(PTR, 'some this.addr')
+                if tag == 'end_ptr_tag' and len(args) == 1:
+                    return W(ENDP, 'this.endp')
+            return self.call_own(self.cname, tag[:-len('_tag')], args[1:], hint, this=None if self.is_group else 'this')
+        if fn[0] == 'name':
+            n = strip_ns(fn[1])
+            if n == 'size_bytes' and len(args) == 1:
+                v = self.ex(args[0])
+                if v.ty != DIM:
+                    raise ExtractError('sbepp::size_bytes of a %s value' % (v.ty[0],))
+                self.need('dim')
+                return W(INT('size_t'), 'headerSizeBytes dim %s' % v.term)
+            if fn[2] is None and n not in self.env and self.has_method(n):
+                return self.call_own(self.cname, self.ovl(n, args), args, hint, this=None if self.is_group else 'this')
+            raise ExtractError('call of unknown function %s' % fn[1])
+        if fn[0] == 'member':
+            obj, name = fn[1], fn[2]
+            if obj == ('this',) or is_this_deref(obj):
+                return self.call_own(self.cname, self.ovl(name, args), args, hint, this=None if self.is_group else 'this')
+            o = self.ex(obj)
+            if o.ty == DIM and name in HEADER_FIELDS and not args:
+                self.need('bo', 'buf', 'dim', 'gaddr')
+                return W(('wrap', HEADER_FIELDS[name]), '%s bo buf dim gaddr %s' % (name, o.term))
+            if o.ty[0] == 'wrap' and name == 'value' and not args:
+                return W(INT(o.ty[1]), o.term)
+            if o.ty[0] == 'crange':
+                return self.call_own('cursor_range', name, args, hint, this=paren(o.term))
+            if o.ty in (CURSOR,) and name == 'pointer' and not args:
+                self.need('c')
+                return W(PTR, 'c')
+            if o.ty[0] == 'generic' and name == 'on_entry':
+                return self.on_entry(o, args)
+            raise ExtractError('member call .%s on a %s value' % (name, o.ty[0]))
+        raise ExtractError('call form is not translated')
+
+    def ovl(self, name, args):
+        if name == 'cursor_subrange':
+            return 'cursor_subrange%d' % (len(args) - 1)
+        return name
+
+    def on_entry(self, o, args):
+        self.role(o.term, 'visitor')
+        if len(args) != 2:
+            raise ExtractError('on_entry with %d arguments' % len(args))
+        en = self.ex(args[0])
+        cu = self.ex(args[1])
+        if en.ty != ENTRY:
+            raise ExtractError('on_entry on a %s value' % (en.ty[0],))
+        if cu.ty[0] == 'generic':
+            self.role(cu.term, 'cursor')
+        elif cu.ty != CURSOR:
+            raise ExtractError('on_entry with a %s value as cursor' % (cu.ty[0],))
+        self.needs.add('visit')
+        self.stateful = True
+        name = self.body.fresh()
+        self.mon = True
+        self.body.emit('let (%s, c, v) ← on_entry %s c v' % (name, en.term))
+        return W(INT('bool'), name)
+
+    def construct(self, t, args, hint=None):
+        """`T{args}`: constructor call"""
+        if t[0] == 'crange':
+            return self.call_own('cursor_range', 'ctor', args, hint)
+        if t[0] == 'citer':
+            return self.call_own('input_iterator', 'ctor', args, hint)
+        if t == ENTRY:
+            if len(args) != 3:
+                raise ExtractError('entry constructed from %d arguments' % len(args))
+            first = self.ex(args[0])
+            if first.ty == CURSOR:
+                # `Entry{*cursor, end, block_length}`: Entry is the (generated) entry class; with declared members
+                # it inherits the entry_base constructor from a cursor, without members it has its own
+                callee = self.model.translate('entry_base', 'ctor_cursor')
+                en, bl = self.ex(args[1]), self.nat(self.ex(args[2]))
+                if en.ty not in (ENDP, PTR):
+                    raise ExtractError('entry constructed with a %s value as end pointer' % (en.ty[0],))
+                self.need('emptyCtor', 'c')
+                name = self.body.fresh(hint)
+                self.mon = True
+                self.body.emit('let (%s, c) ← entryFromCursor emptyCtor Entry.%s c %s %s' % (
+                    name, callee.name, paren(en.term), paren(bl.term)))
+                self.cursor_moved = True
+                return W(ENTRY, name)
+            return self.call_own('entry_base', 'ctor_ptr', args, hint)
+        if t == ('byterange',):
+            raise ExtractError('byte_range outside a constructor initialiser')
+        raise ExtractError('construction of a %s value is not translated' % (t[0],))
+
+    # ---- statements
+    def stmt(self, s):
+        if self.returned:
+            raise ExtractError('statement after return')
+        k = s[0]
+        if k == 'assert':
+            self.need('endp')
+            saved = self.body.lines
+            self.body.lines = []
+            self.body.ind += 1
+            mon0 = self.mon
+            try:
+                v = self.ex(s[1])
+                if v.ty != INT('bool'):
+                    raise ExtractError('SBEPP_ASSERT of a %s value' % (v.ty[0],))
+                inner = self.body.lines
+            finally:
+                self.body.lines = saved
+                self.body.ind -= 1
+            self.mon = True
+            if not inner:
+                self.body.emit('assertPre endp (pure %s)' % paren(v.term))
+            else:
+                self.body.emit('assertPre endp (do')
+                self.body.lines += inner
+                self.body.emit('pure %s)' % paren(v.term), self.body.ind + 1)
+        elif k == 'sizecheck':
+            b, en, o, z = [self.ex(a) for a in s[1]]
+            if b.ty != PTR or en.ty != ENDP:
+                raise ExtractError('SBEPP_SIZE_CHECK(%s, %s, ..)' % (b.ty[0], en.ty[0]))
+            self.mon = True
+            self.body.emit('SBEPP_SIZE_CHECK %s %s %s %s' % (paren(b.term), paren(en.term), paren(self.nat(o).term),
+                                                          paren(self.nat(z).term)))
+        elif k == 'decl':
+            ty, name, init = s[1], s[2], s[3]
+            t = ('auto',) if ty == 'auto' else self.resolve(ty)
+            if t == DIM and init[0] == 'brace' and init[1] == ty:
+                vs = [self.ex(a) for a in init[2]]
+                if len(vs) != 2 or vs[0].term != 'some gaddr' or vs[1].term != 'endp':
+                    raise ExtractError('a Dimension header over something else than the view\'s own [addr, end) is not representable')
+                ln = self.body.fresh(name)
+                self.body.emit('let %s := ()' % ln)
+                self.env[name] = W(DIM, ln)
+                return
+            v = self.ex(init, hint=name)
+            if not re.fullmatch(r'\w+', v.term):
+                ln = self.body.fresh(name)
+                self.body.emit('let %s := %s' % (ln, v.term))
+                v = W(v.ty, ln)
+            self.env[name] = v
+        elif k == 'expr':
+            e = s[1]
+            if e[0] == 'voidcast':
+                return
+            if e[0] in ('post', 'un') and e[1] in ('++', '--') or e[0] == 'assign':
+                self.assign(e)
+                return
+            self.ex(e)
+        elif k == 'return':
+            self.ret(s[1])
+        elif k == 'block':
+            for x in s[1]:
+                self.stmt(x)
+        elif k == 'if':
+            c = self.ex(s[1])
+            if c.ty != INT('bool'):
+                raise ExtractError('if on a %s value' % (c.ty[0],))
+            self.body.emit('if %s then' % c.term)
+            self.body.ind += 1
+            n0 = len(self.body.lines)
+            for x in s[2]:
+                self.stmt(x)
+            if len(self.body.lines) == n0:
+                self.body.emit('pure ()')
+            r1 = self.returned
+            self.returned = False
+            self.body.ind -= 1
+            r2 = False
+            if s[3] is not None:
+                self.body.emit('else')
+                self.body.ind += 1
+                n0 = len(self.body.lines)
+                for x in s[3]:
+                    self.stmt(x)
+                if len(self.body.lines) == n0:
+                    self.body.emit('pure ()')
+                r2 = self.returned
+                self.body.ind -= 1
+            self.returned = r1 and r2
+        elif k == 'rangefor':
+            self.rangefor(s[1], s[2], s[3])
+        else:
+            raise ExtractError('statement form `%s` is not translated here' % k)
+
+    def assign(self, e):
+        """`index++` on a data member of an iterator"""
+        tgt = e[2]
+        if not (tgt[0] == 'name' and tgt[2] is None and tgt[1] in FIELD_OF.get(self.cname, {}) and tgt[1] not in self.locals):
+            raise ExtractError('assignment to something else than a data member of the model')
+        mem = tgt[1]
+        mty = MEMBERS_II[self.cname][mem][0]
+        cur = self.env[mem]
+        if e[0] == 'assign':
+            rhs = self.nat(self.ex(e[3]))
+            if e[1] == '=':
+                new = rhs.term
+            elif e[1] in ('+=', '-=') and mty == INT('NT'):
+                self.need('w')
+                new = '%s %s %s %s' % ('addIndex' if e[1] == '+=' else 'subIndex', self.w, paren(cur.term), paren(rhs.term))
+            else:
+                raise ExtractError('%s on member %s' % (e[1], mem))
+        else:
+            if mty != INT('NT'):
+                raise ExtractError('%s on member %s' % (e[1], mem))
+            self.need('w')
+            new = '%s %s %s 1' % ('addIndex' if e[1] == '++' else 'subIndex', self.w, paren(cur.term))
+        f = FIELD_OF[self.cname][mem]
+        self.body.emit('let this := { this with %s := %s }' % (f, new))
+
+    def ret_tuple(self, term):
+        return '(%s, c, v)' % term
+
+    def ret(self, e):
+        self.returned = True
+        r = self.cret
+        if e is None:
+            raise ExtractError('return without a value')
+        if self.in_loop:
+            v = self.ex(e)
+            self.body.emit('return (some %s, c, v)' % paren(v.term))
+            return
+        if is_this_deref(e):
+            if r[0] not in ('citer', 'crange'):
+                raise ExtractError('`return *this` in a function returning %s' % self.m.ret)
+            self.emit_return('this')
+            return
+        if e[0] == 'brace' and e[1] is None:
+            v = self.construct(r, e[2])
+        else:
+            v = self.ex(e)
+        if r == DIM or r[0] in ('crange', 'citer') or r == ENTRY:
+            if v.ty[0] != r[0]:
+                raise ExtractError('returns a %s value, declared %s' % (v.ty[0], self.m.ret))
+        elif r == INT('bool'):
+            if v.ty != INT('bool'):
+                raise ExtractError('returns a %s value, declared bool' % (v.ty[0],))
+        elif r[0] in ('int', 'wrap'):
+            self.nat(v)
+        elif r == PTR:
+            if v.ty != PTR:
+                raise ExtractError('returns a %s value, declared pointer' % (v.ty[0],))
+        else:
+            raise ExtractError('return type %s' % self.m.ret)
+        self.emit_return(v.term)
+
+    def emit_return(self, term):
+        if self.stateful:
+            self.body.emit('return %s' % self.ret_tuple(term))
+            return
+        if getattr(self, 'cursor_moved', False):
+            self.body.emit('return (%s, c)' % term)
+            return
+        lh = getattr(self, 'last_hoist', None)
+        if lh and lh[0] == term and lh[2] == len(self.body.lines) - 1 and not lh[3]:
+            self.body.lines.pop()
+            self.body.emit(lh[1])
+        elif self.mon:
+            self.body.emit('return %s' % term)
+        else:
+            self.body.emit(term)
+
+    def rangefor(self, name, rng, body):
+        r = self.ex(rng)
+        if r.ty[0] != 'crange' or not self.is_group:
+            raise ExtractError('only a range-for over a cursor range inside a group class is translated here')
+        it = {k: self.model.translate('input_iterator', k) for k in ('ne', 'inc', 'deref')}
+        cr = {k: self.model.translate('cursor_range', k) for k in ('begin', 'end')}
+        if not (it['ne'].pure and it['inc'].pure and cr['begin'].pure and cr['end'].pure) or it['deref'].pure:
+            raise ExtractError('the iterator operations do not have the shape the range-for combinator expects')
+        for o in list(it.values()) + list(cr.values()):
+            self.needs |= {f for f in o.needs if f not in ('w', 'c')}
+            if 'w' in o.needs:
+                self.need('w')
+        self.needs.add('visit')
+        self.stateful = True
+
+        def partial(ns, o):
+            return paren(' '.join([ns + '.' + o.name] + callargs_ii(o, True)))
+        ev = self.body.fresh(name)
+        self.mon = True
+        self.body.emit('let (ret, c, v) ← forRange %s %s %s %s (fun %s c v => do' % (
+            partial('InputIt', it['ne']), partial('InputIt', it['inc']), partial('InputIt', it['deref']),
+            paren(' '.join(['CursorRange.' + cr['end'].name] + callargs_ii(cr['end'], True) + [paren(r.term)])), ev))
+        saved_env = dict(self.env)
+        self.env[name] = W(ENTRY, ev)
+        self.body.ind += 2
+        self.in_loop = True
+        try:
+            for x in body:
+                self.stmt(x)
+            if not self.returned:
+                self.body.emit('return (none, c, v)')
+            self.body.lines[-1] += ') fuel %s c v' % paren(' '.join(['CursorRange.' + cr['begin'].name] + callargs_ii(cr['begin'], True) + [paren(r.term)]))
+        finally:
+            self.body.ind -= 2
+            self.in_loop = False
+            self.env = saved_env
+            self.returned = False
+        self.body.emit('if let some r := ret then')
+        self.body.emit('return (r, c, v)', self.body.ind + 1)
+
+    # ---- whole method
+    def run(self):
+        m = self.m
+        out = MethodOut()
+        out.ns, out.line, out.text = NS_II[self.cname], m.line, m.text
+        out.name = lean_name(self.key)
+        self.locals = set()
+        self.last_hoist = None
+        self.all_params = []
+        if m.is_ctor:
+            return self.run_ctor(out)
+        # `this` and the data members
+        if not self.is_group:
+            for mem, (mty, proj) in MEMBERS_II[self.cname].items():
+                if proj is not None:
+                    self.env[mem] = W(mty, proj)
+                elif mty == CURSORPTR:
+                    self.env[mem] = W(CURSORPTR, 'c')
+                elif mty == PTR:
+                    self.env[mem] = W(ENDP, 'endp')
+            decl = sorted((n, self.resolve(t)) for t, n in self.model.variants['chk'][self.cname].members)
+            want = sorted((n, t) for n, (t, _) in MEMBERS_II[self.cname].items())
+            if decl != want:
+                raise ExtractError('%s: data members %r, the model has %r' % (self.cname, decl, want))
+        cmp_friend = m.is_friend and len(m.params) == 2
+        if cmp_friend:
+            self.cmp_objs = {}
+            names = []
+            for ty, pname in m.params:
+                if re.sub(r'<.*>$', '', ty.rstrip('&')) != self.cname or pname is None:
+                    raise ExtractError('comparison parameter `%s %s`' % (ty, pname))
+                ln = lean_ident(pname, self.body.used)
+                self.body.used.add(ln)
+                self.cmp_objs[pname] = ln
+                names.append(ln)
+            self.env = {}
+            self.tail_binders.append('(%s : %s)' % (' '.join(names), THIS_TY[self.cname]))
+        else:
+            for ty, pname in m.params:
+                t = self.resolve(ty)
+                if t[0] == 'tag':
+                    continue
+                if pname is None:
+                    raise ExtractError('unnamed parameter of type %s' % ty)
+                if t == CURSOR:
+                    self.env[pname] = W(CURSOR, 'c')
+                    self.all_params.append((pname, CURSOR, False))
+                elif t[0] in ('tparam', 'unknown'):
+                    self.env[pname] = W(('generic', pname), pname)
+                    self.all_params.append((pname, ('generic',), False))
+                elif t[0] == 'int' and t != INT('bool'):
+                    ln = lean_ident(pname, self.body.used)
+                    self.body.used.add(ln)
+                    self.env[pname] = W(t, ln)
+                    self.all_params.append((ln, t, True))
+                    self.tail_binders.append('(%s : Nat)' % ln)
+                else:
+                    raise ExtractError('parameter `%s %s` has no model-II type' % (ty, pname))
+        self.cret = self.resolve(m.ret)
+        if self.cret[0] == 'unknown':
+            raise ExtractError('return type %s is not understood' % m.ret)
+        for s in Parser(m.body).statements():
+            self.stmt(s)
+        if not self.returned:
+            raise ExtractError('control reaches the end of a non-void function')
+        out.needs = set(self.needs)
+        if not self.is_group and not cmp_friend:
+            uses_this = any(re.search(r'\bthis\b', l) for l in self.body.lines)
+            self.tail_binders.insert(0, '(this : %s)' % THIS_TY[self.cname])
+        out.tail_binders = self.tail_binders
+        r = self.cret
+        lean_ret = {'dim': 'Unit', 'crange': 'Range', 'citer': 'InIter', 'entry': 'LView', 'ptr': 'Ptr'}.get(r[0])
+        if r == INT('bool'):
+            lean_ret = 'Bool'
+        elif r[0] in ('int', 'wrap'):
+            lean_ret = 'Nat'
+        if lean_ret is None:
+            raise ExtractError('return type %s' % m.ret)
+        if self.stateful:
+            lean_ret = '(%s × Ptr × σ)' % lean_ret
+        elif getattr(self, 'cursor_moved', False):
+            lean_ret = '(%s × Ptr)' % lean_ret
+        out.pure = not self.mon
+        out.ret = lean_ret if out.pure else 'Out %s' % lean_ret
+        out.lines, out.cret, out.all_params = self.body.lines, r, self.all_params
+        out.binders = binders_ii(out)
+        for gp, role in self.roles.items():
+            pass
+        return out
+
+    def run_ctor(self, out):
+        """constructors: `cursor_range(...)`, `input_iterator(...)`, `entry_base(ptr, end, bl)`,
+        `entry_base(cursor&, end, bl)`"""
+        m = self.m
+        pinfo = []
+        for ty, pname in m.params:
+            t = self.resolve(ty)
+            if pname is None:
+                raise ExtractError('unnamed constructor parameter')
+            pinfo.append((pname, t))
+        for s in Parser(m.body).statements():
+            if not (s[0] == 'expr' and s[1][0] == 'voidcast'):
+                raise ExtractError('a statement in the constructor body is not translated')
+        used = set()
+        if self.cname == 'entry_base':
+            # parameters: a pointer or the cursor, the end pointer, the block length: all carried
+            for pname, t in pinfo:
+                ln = lean_ident(pname, used)
+                used.add(ln)
+                if t == CURSOR:
+                    self.env[pname] = W(CURSOR, ln)
+                    self.all_params.append((ln, PTR, True))
+                    self.tail_binders.append('(%s : Ptr)' % ln)
+                elif t == PTR and len(self.all_params) == 0:
+                    self.env[pname] = W(PTR, ln)
+                    self.all_params.append((ln, PTR, True))
+                    self.tail_binders.append('(%s : Ptr)' % ln)
+                elif t == PTR:
+                    self.env[pname] = W(ENDP, ln)
+                    self.all_params.append((ln, ENDP, True))
+                    self.tail_binders.append('(%s : Option Nat)' % ln)
+                elif t[0] == 'int':
+                    self.env[pname] = W(t, ln)
+                    self.all_params.append((ln, t, True))
+                    self.tail_binders.append('(%s : Nat)' % ln)
+                else:
+                    raise ExtractError('constructor parameter %s of type %r' % (pname, t))
+            inits = m.inits
+            if len(inits) == 1 and inits[0][0] == self.cname:
+                # delegating constructor
+                args = [Parser(a).expr() for a in inits[0][1]]
+                vs = []
+                for a in args:
+                    if a[0] == 'call' and a[1][0] == 'member' and a[1][2] == 'pointer' and not a[2]:
+                        o = self.ex(a[1][1])
+                        if o.ty != CURSOR:
+                            raise ExtractError('.pointer() on a %s value' % (o.ty[0],))
+                        vs.append(W(PTR, o.term))
+                    else:
+                        vs.append(self.ex(a))
+                callee = self.model.translate('entry_base', 'ctor_ptr')
+                if len(vs) != 3 or vs[0].ty != PTR or vs[1].ty not in (ENDP, PTR) or vs[2].ty[0] != 'int':
+                    raise ExtractError('delegation to entry_base{%s}' % ', '.join(v.ty[0] for v in vs))
+                self.body.emit(' '.join([callee.name] + [paren(v.term) for v in vs]))
+                self.mon = not callee.pure
+            else:
+                bases = {i[0]: i[1] for i in inits}
+                br = [k for k in bases if k.startswith('byte_range')]
+                if len(br) != 1 or sorted(k for k in bases if k not in br) != ['block_length']:
+                    raise ExtractError('entry_base constructor initialises %r' % sorted(bases))
+                a = [self.ex(Parser(x).expr()) for x in bases[br[0]]]
+                bl = [self.ex(Parser(x).expr()) for x in bases['block_length']]
+                if len(a) != 2 or a[0].ty != PTR or a[1].ty not in (ENDP, PTR) or len(bl) != 1 or bl[0].ty[0] != 'int':
+                    raise ExtractError('entry_base constructor: byte_range{%s}, block_length{%s}' % (
+                        ', '.join(v.ty[0] for v in a), ', '.join(v.ty[0] for v in bl)))
+                self.body.emit('mkEntry %s %s %s' % (paren(a[0].term), paren(a[1].term), paren(bl[0].term)))
+                self.mon = True
+            out.tail_binders = self.tail_binders
+            out.needs = set()
+            out.pure = False
+            out.ret = 'Out LView'
+            out.lines, out.cret, out.all_params = self.body.lines, ENTRY, self.all_params
+            out.binders = binders_ii(out)
+            out.as_term = True
+            return out
+        # cursor_range / input_iterator: the model carries the integer members only
+        fields = FIELD_OF[self.cname]
+        for pname, t in pinfo:
+            ln = lean_ident(pname, used)
+            used.add(ln)
+            if t[0] == 'int':
+                self.env[pname] = W(t, ln)
+                self.all_params.append((ln, t, True))
+                self.tail_binders.append('(%s : Nat)' % ln)
+            elif t in (CURSOR, CURSORPTR):
+                self.env[pname] = W(t, 'c')
+                self.all_params.append((ln, t, False))
+            elif t == PTR:
+                self.env[pname] = W(ENDP, 'endp')
+                self.all_params.append((ln, PTR, False))
+            else:
+                raise ExtractError('constructor parameter %s of type %r' % (pname, t))
+        members = MEMBERS_II[self.cname]
+        got = {}
+        for mem, args, _ in m.inits:
+            if mem not in members:
+                raise ExtractError('initialiser of unknown member %s' % mem)
+            if len(args) != 1:
+                raise ExtractError('member %s initialised with %d arguments' % (mem, len(args)))
+            v = self.ex(Parser(args[0]).expr())
+            mty = members[mem][0]
+            if mem in fields:
+                got[mem] = self.nat(v).term
+            elif mty == CURSORPTR:
+                if v.ty != CURSORPTR or v.term != 'c':
+                    raise ExtractError('member %s is not initialised with the cursor parameter' % mem)
+                got[mem] = None
+            elif mty == PTR:
+                if v.term != 'endp':
+                    raise ExtractError('member %s is not initialised with the end pointer parameter' % mem)
+                got[mem] = None
+        want = set(members) - ({m2 for m2, (t2, _) in members.items() if t2 == PTR} if self.variant == 'unc' else set())
+        if set(got) != want:
+            raise ExtractError('constructor initialises %r, the members are %r' % (sorted(got), sorted(want)))
+        order = [mem for mem, _, _ in m.inits if mem in fields]
+        self.body.emit('{ %s }' % ', '.join('%s := %s' % (fields[mem], got[mem]) for mem in order))
+        out.tail_binders = self.tail_binders
+        out.needs = set()
+        out.pure = True
+        out.ret = THIS_TY[self.cname]
+        out.lines, out.all_params = self.body.lines, self.all_params
+        out.cret = ('crange',) if self.cname == 'cursor_range' else ('citer',)
+        out.binders = binders_ii(out)
+        return out
+
+
+# ------------------------------------------------------------------ output
+
+HEADER = '''-- GENERATED by /verif/extract/methods_group.py from %(hpp)s on every check run. Do not edit.
+--
+-- %(what)s
+-- translated statement by statement from the C++ text.  Target language: %(dsl)s.  Tie: %(tie)s.
+-- C++ typing facts assumed by the translator:
+%(facts)s
+import %(imp)s
+
+set_option linter.unusedVariables false
+
+'''
+
+WHAT_I = ('One definition per member function of detail::flat_group_base, detail::nested_group_base (container part),\n'
+          '-- detail::forward_iterator, constructor / operator* of detail::random_access_iterator, and the SBEPP_SIZE_CHECK macro,')
+FACTS_I = '''--  * Byte* = .ptr (signed 64-bit offset, nullptr = 0), std::size_t = .u64, size_type = NT, block length type = BT,
+--    difference_type = diffTy NT, integer literals are int; which template argument of an iterator template is the
+--    index / block length type is read from the `using iterator = ...` alias of the group class
+--  * arguments are converted to the declared parameter type (`.decl` for constructor parameters, `CVal.conv` at the
+--    entry of a member function); `return e` converts unless `e` has exactly the declared type
+--  * a Dimension header object is only constructed over the view's own [addr, end); its generated accessors are
+--    modelled by what they read (hdr = size_bytes, num = numInGroup().value(), bl = blockLength().value()), the
+--    numInGroup(v) setter by what it writes
+--  * SBEPP_ASSERT / SBEPP_SIZE_CHECK are enabled together with SBEPP_SIZE_CHECKS_ENABLED (`chk`); the argument of a
+--    disabled assertion is not evaluated; `#if SBEPP_SIZE_CHECKS_ENABLED` regions are translated for both settings;
+--    the `end` data member of an iterator exists only with size checks and is read only inside them
+--  * sbepp::size_bytes(entry) = esize (address of the entry; an entry view is its address); loops carry `fuel`
+--  * `++ -- + - []` and the comparisons of random_access_iterator are the kernel wrappers of Rt/Iter.lean'''
+WHAT_II = ('One definition per cursor-range member function of detail::flat_group_base / detail::nested_group_base (with the\n'
+           '-- header accessors they call), of detail::cursor_range, detail::input_iterator and the entry_base constructors /\n'
+           '-- accessors the iterators use,')
+FACTS_II = '''--  * Byte* = Option Nat (none = nullptr), sizes and positions = Nat; checks are enabled exactly when the view's end
+--    pointer `endp` is `some _`; `#if SBEPP_SIZE_CHECKS_ENABLED` regions are translated for both settings
+--  * the group header is read from `buf` at `gaddr` through the dimension description `dim`; a Dimension header
+--    object is only constructed over the view's own [addr, end)
+--  * size_type arithmetic in Nat (`a - b` truncated: exact under the preceding SBEPP_ASSERT(pos < size())), the explicit
+--    conversions static_cast<size_type>(a - b) / static_cast<IndexType>(a + b) / index++ wrap at
+--    2 ^ (8 * sizeof(size_type)) (`w` / `indexBits dim`)
+--  * a range / iterator refers to the ambient cursor `c` and end pointer `endp` (handing on anything else is rejected);
+--    an entry object is the `LView` of its block; an entry class without members has the generated constructor
+--    (`emptyCtor`); a visitor is its `on_entry` callback; loops carry `fuel`'''
+
+
+def extract(repo, outdir):
+    report = {'source': HPP, 'methods': {}, 'failed': {}}
+    path = os.path.join(repo, HPP)
+    try:
+        raw = open(path, encoding='utf-8').read()
+    except OSError as e:
+        report['failed']['sbepp.hpp'] = str(e)
+        return report
+    src = cxx.strip_comments(raw)
+    variants = load_classes(src, report)
+    types = Types(variants['chk'])
+    parts = []
+
+    def failed(name, ex):
+        report['failed'][name] = str(ex)
+        return '-- EXTRACTION FAILED: %s: %s\n' % (name, str(ex).replace('\n', ' '))
+
+    def emit_model(model, keys, nsmap):
+        for cname in keys:
+            if cname not in variants['chk']:
+                continue
+            for key in keys[cname]:
+                try:
+                    model.translate(cname, key)
+                except ERRS:
+                    pass
+        # definitions grouped in consecutive runs of the same class, in completion order (callees first)
+        runs = []
+        for cname, key in model.order:
+            if runs and runs[-1][0] == cname:
+                runs[-1][1].append(key)
+            else:
+                runs.append((cname, [key]))
+        for cname, ks in runs:
+            defs = []
+            for key in ks:
+                r = model.done[(cname, key)]
+                if isinstance(r, ExtractError):
+                    defs.append(failed('%s::%s' % (cname, key), r))
+                    continue
+                defs.append(render_def(r, cname))
+                report['methods']['%s::%s' % (cname, key)] = {
+                    'line': r.line, 'lean': '%s.%s.%s' % (LEAN_NS, nsmap[cname], r.name),
+                    'term_sha': hashlib.sha256(('\n'.join(r.lines) + r.binders + r.ret).encode()).hexdigest()[:12]}
+            parts.append('namespace %s\n\n%s\nend %s\n' % (nsmap[cname], '\n'.join(defs), nsmap[cname]))
+
+    # ---- model I
+    parts.append('/-! ## model I: `Rt/Iter.lean` -/\nnamespace %s\nopen Sbepp Sbepp.Rt Sbepp.Rt.GroupDsl\n' % LEAN_NS)
+    try:
+        mtext, mparams, mbody = translate_macro(src)
+        parts.append('namespace Macro\n\n%s\nend Macro\n' % mtext)
+        report['methods']['SBEPP_SIZE_CHECK'] = {'lean': LEAN_NS + '.Macro.SBEPP_SIZE_CHECK', 'text': mbody}
+    except ERRS as ex:
+        parts.append(failed('SBEPP_SIZE_CHECK', ex))
+    try:
+        m1 = ModelI(types, variants, report)
+        emit_model(m1, KEYS_I, NS_I)
+    except ERRS as ex:
+        parts.append(failed('model-I', ex))
+    parts.append('end %s\n' % LEAN_NS)
+    text1 = HEADER % {'hpp': HPP, 'what': WHAT_I, 'facts': FACTS_I, 'imp': 'Sbepp.Rt.GroupDsl',
+                      'dsl': 'Sbepp/Rt/GroupDsl.lean over Sbepp/Rt/Iter.lean',
+                      'tie': 'Sbepp/Lemmas/GroupTie.lean'} + '\n'.join(parts)
+    # ---- model II (a module of its own: the schema layer's `Sbepp.Group` must not enter the modules about `Sbepp.Rt.Group`)
+    parts[:] = []
+    parts.append('/-! ## model II: `Rt/Cursor.lean` -/\nnamespace %s\n'
+                 'open Sbepp Sbepp.Gen Sbepp.Cursor Sbepp.Rt.Cursor Sbepp.Rt.Cursor.Dsl Sbepp.Rt.Cursor.GroupDsl\n' % LEAN_NS)
+    try:
+        m2 = ModelII(types, variants, report)
+        emit_model(m2, KEYS_II, NS_II)
+    except ERRS as ex:
+        parts.append(failed('model-II', ex))
+    parts.append('end %s\n' % LEAN_NS)
+    text2 = HEADER % {'hpp': HPP, 'what': WHAT_II, 'facts': FACTS_II, 'imp': 'Sbepp.Rt.GroupCursorDsl',
+                      'dsl': 'Sbepp/Rt/GroupCursorDsl.lean over Sbepp/Rt/Cursor.lean',
+                      'tie': 'Sbepp/Lemmas/GroupCursorTie.lean'} + '\n'.join(parts)
+    if outdir:
+        write_if_changed(os.path.join(outdir, 'GroupMethods.lean'), text1)
+        write_if_changed(os.path.join(outdir, 'GroupCursorMethods.lean'), text2)
+    report['sha256'] = hashlib.sha256(raw.encode()).hexdigest()
+    return report
+
+
+if __name__ == '__main__':
+    import json
+    import sys
+    rep = extract(sys.argv[1] if len(sys.argv) > 1 else '/repo', sys.argv[2] if len(sys.argv) > 2 else None)
+    print(json.dumps(rep['failed'], indent=1))
